@@ -76,6 +76,9 @@ SameDen(e1, e2) ==
 Orders == {<<1, 2, 3>>, <<3, 1, 2>>, <<2, 3, 1>>} \cup (IF NNames > 3 THEN {<<4, 2, 1, 3>>} ELSE {})
 FullOrders == {o \in Orders : Len(o) = NNames}
 Ranges(x) == (SUBSET MFree(x)) \ {{}}
+\* ranges of a sum may also name a variable the summand does not mention (the sum then counts its values)
+RangesX(x) == Ranges(x) \cup (IF NameSet \ MFree(x) = {} THEN {}
+                              ELSE LET z == Min(NameSet \ MFree(x)) IN {r \cup {z} : r \in Ranges(x)})
 Operands == {A(p) : p \in Atoms} \cup {[op |-> "one"]} \cup {A(q) : q \in QAtoms}
 
 Succ(x) ==
@@ -87,7 +90,7 @@ Succ(x) ==
 \cup {[op |-> "rdiv", a |-> x, b |-> y] : y \in {A(p) : p \in SmallAtoms}}
 \cup {[op |-> "rdiv", a |-> y, b |-> x] : y \in {A(p) : p \in SmallAtoms}}
 \cup {[op |-> "rmul", a |-> y, b |-> x] : y \in {A(p) : p \in SmallAtoms}}
-\cup {[op |-> "marg",  r |-> SetToSeq(r), a |-> x] : r \in Ranges(x)}
+\cup {[op |-> "marg",  r |-> SetToSeq(r), a |-> x] : r \in RangesX(x)}
 \cup (IF HasMarks(Math(x)) THEN {} ELSE {[op |-> "cond",  r |-> SetToSeq(r), a |-> x] : r \in Ranges(x)})
 \cup {[op |-> "nmarg", r |-> SetToSeq(r), a |-> x] : r \in Ranges(x)}
 \cup {[op |-> o, a |-> x] : o \in {"fsimp", "ssimp", "contract", "rcontract", "pp"}}
